@@ -142,6 +142,74 @@ func runDeterm(f []string, out *bufio.Writer) {
 		fmt.Fprintln(out, "diff "+bad)
 		return
 	}
+	// a stream through HandleMessages with a consumer that lags: the frames interleaved with false starts (0xd3
+	// with reserved bits set, a frame with a corrupted CRC, text); messages are kept and looked at again after the
+	// handler has finished - a delivered message must not change when the handler moves on
+	{
+		var stream []byte
+		for i, fr := range frames {
+			stream = append(stream, fr...)
+			switch i % 3 {
+			case 0:
+				stream = append(stream, 0xd3, 0xfc, 0x01, 0x02, 0x03, 0x04)
+			case 1:
+				bad := append([]byte(nil), fr...)
+				bad[len(bad)-1] ^= 0x5a
+				stream = append(stream, bad...)
+			case 2:
+				stream = append(stream, []byte("$GPGGA,123519,4807.038,N*47\r\n")...)
+			}
+		}
+		chIn := make(chan byte, 64)
+		chOut := make(chan rtcm.Message, 4096)
+		hs := rtcm.New(T, lvl)
+		go hs.HandleMessages(chIn, chOut)
+		go func() {
+			for _, b := range stream {
+				chIn <- b
+			}
+			close(chIn)
+		}()
+		var kept []rtcm.Message
+		var atReceipt [][]byte
+		deadline := time.After(60 * time.Second)
+	collect:
+		for {
+			select {
+			case m, ok := <-chOut:
+				if !ok {
+					break collect
+				}
+				if len(kept)%4 == 3 {
+					time.Sleep(200 * time.Microsecond) // lag behind the handler now and then
+				}
+				kept = append(kept, m)
+				atReceipt = append(atReceipt, append([]byte(nil), m.RawData...))
+			case <-deadline:
+				fmt.Fprintln(out, "diff stream:hang:frame0")
+				return
+			}
+		}
+		var cat []byte
+		for i := range kept {
+			if !bytes.Equal(kept[i].RawData, atReceipt[i]) {
+				fmt.Fprintf(out, "diff stream:raw-changed-after-delivery:frame%d\n", i)
+				return
+			}
+			cat = append(cat, kept[i].RawData...)
+		}
+		if !bytes.Equal(cat, stream) {
+			fmt.Fprintf(out, "diff stream:kept-messages-do-not-add-up-to-the-input:frame0\n")
+			return
+		}
+		for i := range kept {
+			t1 := stripTime(kept[i].String())
+			if t2 := stripTime(kept[i].String()); t1 != t2 || !bytes.Equal(kept[i].RawData, atReceipt[i]) {
+				fmt.Fprintf(out, "diff stream:display-unstable-or-raw-modified:frame%d\n", i)
+				return
+			}
+		}
+	}
 	// fan-out: the same message value handed to two consumers (as appcore does); one of them
 	// displays it and scribbles on its own copy, the other must see the reference
 	hf := rtcm.New(T, lvl)
